@@ -570,6 +570,11 @@ func checkCLI(cc CLICase, bin, scratch string) (key, msg string, out uint64) {
 	os.WriteFile(in, cc.Data, 0o644)
 	in2 := filepath.Join(dir, "other.srt")
 	os.WriteFile(in2, otherSRT, 0o644)
+	if cc.Sub == "merge" && cc.SrcExt == ".ts" {
+		// both inputs are transport streams: the page option must reach the second one as well
+		in2 = filepath.Join(dir, "other.TS")
+		os.WriteFile(in2, cc.Data, 0o644)
+	}
 	outp := filepath.Join(dir, "cli"+cc.Dest)
 	args := []string{cc.Sub, "-i", in}
 	if cc.Sub == "merge" {
@@ -581,6 +586,9 @@ func checkCLI(cc CLICase, bin, scratch string) (key, msg string, out uint64) {
 		page = 888
 		if strings.Contains(cc.Doc, "german") {
 			page = 150
+		}
+		if strings.Contains(cc.Doc, "two-pages") {
+			page = 889 // not the first subtitle page of the stream
 		}
 		args = append(args, "-p", fmt.Sprint(page))
 	}
@@ -609,7 +617,13 @@ func checkCLI(cc CLICase, bin, scratch string) (key, msg string, out uint64) {
 				pan = fmt.Sprint(e)
 			}
 		}()
-		if cc.OpIdx >= 0 {
+		if cc.Sub == "merge" && cc.SrcExt == ".ts" {
+			s2, e2 := astisub.Open(astisub.Options{Filename: in2, Teletext: astisub.TeletextOptions{Page: page}})
+			if e2 != nil {
+				panic(e2)
+			}
+			s.Merge(s2)
+		} else if cc.OpIdx >= 0 {
 			applyReal(s, alphabet[cc.OpIdx])
 		}
 		werr = s.Write(libp)
@@ -790,7 +804,7 @@ func run(c *core.Ctx) {
 		for di, d := range valid {
 			for ei, de := range destExts {
 				// convert: every (source, destination) pair; other sub-commands: a rotation giving each >= 6 pairs
-				if sb.name != "convert" && c.Tier == core.Quick && (di+ei+si)%4 != 0 {
+				if sb.name != "convert" && c.Tier == core.Quick && (di+ei+si)%4 != 0 && !(sb.name == "merge" && d.Format == "ts" && ei < 2) {
 					continue
 				}
 				n++
